@@ -180,7 +180,7 @@ func TestC19Commands(t *testing.T) {
 	rapid.Check(t, func(rt *rapid.T) {
 		cfg := WorldCfg{Property: "C19", MinNodes: 2, MaxNodes: 5, Letters: "ABC", Strategy: gen.StrategyOpts{Canary: 1}, Affinity: 2, PlainNodes: true, Warmup: 6, StartEdit: 1,
 			Monitors: mon.Of("promotion-rule", "status-function", "no-panic", "canary-confinement"),
-			Weights:  map[string]int{"round": 8, "rec-eds": 4, "rec-ers": 6, "advance": 3, "kubelet": 3, "edit-template": 3, "pod-restart": 4, "pod-waiting": 2, "pod-start": 2, "canary-valid": 1}}
+			Weights:  map[string]int{"round": 8, "rec-eds": 4, "rec-ers": 6, "advance": 3, "kubelet": 3, "edit-template": 3, "pod-restart": 4, "pod-waiting": 2, "pod-start": 2, "canary-valid": 1, "annotation": 2}}
 		w := newWorld(rt, rec, cfg)
 		n := rapid.IntRange(0, 25).Draw(rt, "prefixSteps")
 		for i := 0; i < n; i++ {
